@@ -78,7 +78,7 @@ def implChoice (X : SchemaX) (o : VOpts) (cx : Cx) : STree → List DNode → Li
       | some node =>
         -- create any default data in the existing case
         if X.q.implicitInnerCase then
-          -- defective code (F65): the DIRECT schema parent of the node that was found, which is an inner case when that
+          -- defective code (F180): the DIRECT schema parent of the node that was found, which is an inner case when that
           -- node sits in a nested choice
           match sparent X.base node.sid with
           | some target => implInto X o cx target cases sibs
